@@ -113,6 +113,32 @@ theorem rr_balanced (ms : List Member) (ps : List Part) (h : WellFormed ms) (t :
   rw [rr_load ms ps h t m₁ h₁, rr_load ms ps h t m₂ h₂]
   split <;> split <;> omega
 
+/-- RoundRobin hands the subscriber of rank `i` every M-th listed partition starting with the i-th -/
+theorem rr_stride (ms : List Member) (ps : List Part) (h : WellFormed ms) (t : Nat) :
+    RRShapeAt ms ps (rrAssign ms ps) t := by
+  obtain ⟨hd, ho⟩ := wf_split h
+  intro m hm
+  have hp := findMembers_perm ms t ho
+  obtain ⟨he, _⟩ := entry_of_subscriber (rrSel (findMembersByTopic ms t).length) (findPartitions t ps) ms t hd ho m hm
+  unfold rrAssign rrTopic
+  rw [he, pick_rr_stride, findPartitions_eq, hp.length_eq]
+
+/-! ## 2b. Range and RoundRobin depend only on the set of members, not on the listing order -/
+
+theorem range_perm_invariant (ms ms' : List Member) (ps : List Part) (h : WellFormed ms) (hp : ms.Perm ms') :
+    rangeAssign ms ps = rangeAssign ms' ps := by
+  funext t id
+  unfold rangeAssign
+  rw [findMembers_perm_invariant ms ms' hp h t]
+
+theorem rr_perm_invariant (ms ms' : List Member) (ps : List Part) (h : WellFormed ms) (hp : ms.Perm ms') :
+    rrAssign ms ps = rrAssign ms' ps := by
+  funext t id
+  unfold rrAssign
+  rw [findMembers_perm_invariant ms ms' hp h t]
+
+example : exMembers.Perm exMembers.reverse := List.reverse_perm _ |>.symm
+
 /-! ## 3. The monitor evaluated by the oracle holds of the model's output, on every finite domain -/
 
 theorem range_coverBalance (ms : List Member) (ps : List Part) (h : WellFormed ms) (ts ids : List Nat) :
@@ -124,5 +150,15 @@ theorem rr_coverBalance (ms : List Member) (ps : List Part) (h : WellFormed ms) 
     coverBalanceOn ms ps (rrAssign ms ps) ts ids = true := by
   simp only [coverBalanceOn, List.all_eq_true, Bool.and_eq_true, decide_eq_true_eq]
   exact fun t _ => ⟨⟨rr_cover ms ps h t, rr_balanced ms ps h t⟩, fun id _ => rr_only_subscribers ms ps h t id⟩
+
+theorem range_holds (ms : List Member) (ps : List Part) (h : WellFormed ms) (ts ids : List Nat) :
+    rangeHoldsOn ms ps (rangeAssign ms ps) ts ids = true := by
+  simp only [rangeHoldsOn, Bool.and_eq_true, range_coverBalance ms ps h, List.all_eq_true, decide_eq_true_eq, true_and]
+  exact fun t _ => range_contiguous ms ps h t
+
+theorem rr_holds (ms : List Member) (ps : List Part) (h : WellFormed ms) (ts ids : List Nat) :
+    rrHoldsOn ms ps (rrAssign ms ps) ts ids = true := by
+  simp only [rrHoldsOn, Bool.and_eq_true, rr_coverBalance ms ps h, List.all_eq_true, decide_eq_true_eq, true_and]
+  exact fun t _ => rr_stride ms ps h t
 
 end KV.C14
